@@ -6,10 +6,14 @@ calls the public drange (every call under a CPU-time watchdog: the property dema
 encodes the list as [[ordinal, second, microsecond], ...] (or the exception class, or "timeout")
 and compares it with == against what TLC printed (S2C) or hands it to spec/Trace_Drange.tla (C2S).
 """
-import datetime, signal
+import datetime, json, os, signal, time
 
-WATCHDOG_S = 5.0        # CPU seconds (ITIMER_VIRTUAL); a correct call takes milliseconds
-MAX_TIMEOUTS = 3        # after that many calls that did not terminate the replay stops (the verdict is settled)
+# CPU seconds (ITIMER_VIRTUAL) after which a call counts as not terminating.  A correct call takes milliseconds; the slowest
+# *terminating* call of today's code is a wrong-direction '-1s' between endpoints less than a day apart: dateutil walks back
+# second by second to the start of the month before the ValueError comes out (<= 2.7 million steps, 13 s measured).
+WATCHDOG_S = float(os.environ.get('VERIF_C10_WATCHDOG', 40))
+MAX_TIMEOUTS = 3        # the replay stops after that many calls that did not terminate, or when the calls that took more than 1 s
+SLOW_BUDGET_S = {'quick': 150.0, 'thorough': 900.0}     # have used up this much CPU: such a tree is failing or hopelessly slow
 MAXLEN = 300000
 FIRST, LAST = datetime.datetime(1900, 1, 1).toordinal(), datetime.datetime(2299, 12, 31).toordinal()
 MONTH = ('m', 'q', 'y')
@@ -23,7 +27,11 @@ class GaveUp(Exception):
     """too many calls ran into the watchdog: stop calling, judge what was recorded"""
 
 
-_timeouts = [0]
+_timeouts = [0, 0.0, 150.0]      # calls that timed out, CPU seconds spent in calls slower than 1 s, budget for the latter
+
+
+def exhausted():
+    return _timeouts[0] >= MAX_TIMEOUTS or _timeouts[1] > _timeouts[2]
 
 
 def _alarm(signum, frame):
@@ -63,6 +71,31 @@ def render(bump, form):
 _cal = []
 
 
+def _vm_bytes():
+    with open('/proc/self/statm') as f:
+        return int(f.read().split()[0]) * os.sysconf('SC_PAGE_SIZE')
+
+
+class memory_cap(object):
+    """an unbounded list must end in MemoryError (an outcome like any other), not in the OOM killer: while the real call runs the
+    address space may grow by at most 3 GB"""
+    def __enter__(self):
+        import resource
+        self.r = resource
+        self.old = resource.getrlimit(resource.RLIMIT_AS)
+        cap = _vm_bytes() + (3 << 30)
+        if self.old[1] != resource.RLIM_INFINITY:
+            cap = min(cap, self.old[1])
+        try:
+            resource.setrlimit(resource.RLIMIT_AS, (cap, self.old[1]))
+        except (ValueError, OSError):
+            self.old = None
+
+    def __exit__(self, *a):
+        if self.old is not None:
+            self.r.setrlimit(self.r.RLIMIT_AS, self.old)
+
+
 def call(t0, t1, bump, form):
     """one public call under the watchdog; returns the encoded outcome"""
     from pyg_base import drange, calendar
@@ -74,10 +107,12 @@ def call(t0, t1, bump, form):
     else:
         f = drange
     old = signal.signal(signal.SIGVTALRM, _alarm)
+    cpu0 = time.process_time()
     try:
         signal.setitimer(signal.ITIMER_VIRTUAL, WATCHDOG_S)
         try:
-            r = f(a, z, b)
+            with memory_cap():
+                r = f(a, z, b)
         finally:
             signal.setitimer(signal.ITIMER_VIRTUAL, 0)
         return enc_list(r)
@@ -89,6 +124,8 @@ def call(t0, t1, bump, form):
     finally:
         signal.setitimer(signal.ITIMER_VIRTUAL, 0)
         signal.signal(signal.SIGVTALRM, old)
+        if time.process_time() - cpu0 > 1.0:
+            _timeouts[1] += time.process_time() - cpu0
 
 
 def case_of(t0, t1, bump, form):
@@ -109,7 +146,7 @@ def case_of(t0, t1, bump, form):
 
 
 def observe(t0, t1, bump, form):
-    if _timeouts[0] >= MAX_TIMEOUTS:
+    if exhausted():
         raise GaveUp()
     return {'t0': t0, 't1': t1, 'bump': bump, 'form': form, 'out': call(t0, t1, bump, form)}
 
@@ -145,6 +182,7 @@ def forms_for(bump, k):
 
 def s2c(ctx, cases):
     suspects, gave_up = [], False
+    cases = sorted(cases, key=lambda c: json.dumps([c['t0'], c['t1'], c['bump']]))      # TLC prints in no particular order
     for k, c in enumerate(cases):
         try:
             for form in forms_for(c['bump'], k):
@@ -224,7 +262,7 @@ def rand_case(rng, big):
     elif fam == 'intraday':
         t0 = [o, rng.randrange(86400), 0]
         u = rng.choice('hns')
-        n = {'h': rng.choice((1, 2, 6, 24, rng.randint(1, 48))), 'n': rng.choice((1, 30, 90, rng.randint(1, 600))), 's': rng.choice((1, 45, 3600, rng.randint(1, 7200)))}[u]
+        n = {'h': rng.choice((1, 2, 6, 24, rng.randint(1, 48))), 'n': rng.choice((1, 30, 90, rng.randint(1, 600))), 's': rng.choice((1, 45, 45, 3600, 3600, rng.randint(1, 7200), rng.randint(1, 7200), rng.randint(1, 7200)))}[u]
         step = n * {'h': 3600, 'n': 60, 's': 1}[u]
         span = rng.choice((0, 1, step - 1, step, step + 1, rng.randint(0, step * rng.choice((3, 40, 400 if big else 150)))))
         bump = ['tenor', [[sgn * n, u]]] if rng.random() < 0.8 else ['tenor', [[sgn * n, u], [sgn * rng.randint(0, 59), rng.choice('ns')]]]
@@ -291,7 +329,7 @@ def c2s(ctx, ncases, nsub, big):
     obs = []
     cases = [rand_case(ctx.rng, big) for _ in range(ncases)] + subsecond_cases(ctx.rng, nsub)
     for k, (t0, t1, bump, forms) in enumerate(cases):
-        if _timeouts[0] >= MAX_TIMEOUTS:
+        if exhausted():
             break
         if forms == 'int3':
             n = bump[1]
@@ -322,17 +360,19 @@ def run(ctx):
                 'mismatches are classified by Trace_Drange. C2S: random start days of 1911-2289, spans up to several years, all bump kinds, 20% '
                 'pointing away, validated by Trace_Drange. Non-trivial = a list of at least 2 elements or a rejection; distinct by (t0, t1, bump).')
     ctx.mc('MC_Drange', 'MC_Drange_quick.cfg' if ctx.quick else 'MC_Drange_thorough.cfg')
-    _timeouts[0] = 0
+    _timeouts[:] = [0, 0.0, SLOW_BUDGET_S['quick' if ctx.quick else 'thorough']]
     try:
         if s2c(ctx, ctx.generate('MC_Drange', 'MC_Drange_gen.cfg' if ctx.quick else 'MC_Drange_gen2.cfg')):
             c2s(ctx, *((1500, 60, False) if ctx.quick else (20000, 600, True)))
     except GaveUp:
         pass
-    if _timeouts[0] >= MAX_TIMEOUTS:
-        ctx.assumptions.append('the replay was cut short after %d calls that did not terminate within %.0f s of CPU time' % (_timeouts[0], WATCHDOG_S))
+    ctx.extra['slow_calls_cpu_s'] = round(_timeouts[1], 1)
+    if exhausted():
+        ctx.assumptions.append('the replay was cut short: %d calls ran into the %.0f s CPU-time watchdog, calls slower than 1 s used %.0f s' % (_timeouts[0], WATCHDOG_S, _timeouts[1]))
     ctx.exhaustive = False
     ctx.assumptions += [
-        'every real drange call runs under a CPU-time watchdog (ITIMER_VIRTUAL, %.0f s); a timeout is reported as a violation of termination' % WATCHDOG_S,
+        'every real drange call runs under a CPU-time watchdog (ITIMER_VIRTUAL, %.0f s, env VERIF_C10_WATCHDOG); a timeout is reported as a violation of termination. '
+        'Today a wrong-direction negative h/n/s bump between endpoints less than a day apart is rejected only after dateutil has walked back to the start of the month (up to 13 s of CPU for -1s): it terminates with ValueError and is accepted' % WATCHDOG_S,
         'domain as in the quantifier (Drange!CaseInDomain): int and business-day bumps with endpoints a whole number of days apart; month-based '
         'units with midnight endpoints, t0 on a day <= 28 and only whole-day units beside them in compound tenors; zero bumps excluded; '
         'compound tenors of the random driver have parts of one sign, or a dominating leading month/year part, so that every step moves the same way',
